@@ -164,6 +164,34 @@ def main(chk):
         chk.violation('C16:state:split-merge:' + sig, 'merge(split(s)) != s or groups overlap', case)
     except Exception as e:
       chk.violation('C16:state:conversions', f'conversion raised {type(e).__name__}: {str(e)[:120]} [{sig}]', case)
+  # split / filter with filter sequences (types and path predicates): first-match partition, for State and FlatState
+  sp = tlc.require_ok(tlc.run('Traverse', 'Traverse_split.cfg', workers=1, timeout=900), 'Traverse split')
+  chk.add_tlc(sp, 'Traverse split / filter cases')
+  fmap = {'P': nnx.Param, 'Q': Q, 'px': nnx.PathContains('x'), 'pb': nnx.PathContains('b')}
+  for idx, case in enumerate(sp['exports']):
+    a = mk(case['a'])
+    fs = [fmap[f] for f in case['fs']]
+    want = [set(tuple(p) for p in g) for g in case['groups']]
+    sig = ','.join('/'.join(p) + f':{v}' for p, v in sorted(case['a'])) + '|' + ','.join(case['fs'])
+    variants = {
+        'split_state': lambda: nnx.split_state(a, *fs, ...),
+        'State.split': lambda: a.split(*fs, ...),
+        'filter_state': lambda: nnx.filter_state(a, *fs) if len(fs) > 1 else (nnx.filter_state(a, *fs),),
+        'State.filter': lambda: a.filter(*fs) if len(fs) > 1 else (a.filter(*fs),),
+        'FlatState.split': lambda: tuple(nnx.from_flat_state(x) for x in nnx.to_flat_state(a).split(*fs, ...)),
+    }
+    for name, fn in variants.items():
+      try:
+        r = fn()
+      except Exception as e:
+        chk.violation(f'C16:state:{name}', f'{name} raised {type(e).__name__}: {str(e)[:120]} [{sig}]', case)
+        continue
+      m += 1
+      chk.count((name, sig))
+      got = [set(proj(x)) for x in r]
+      exp = want if 'split' in name else want[:-1]
+      if got != exp:
+        chk.violation(f'C16:state:{name}:{sig}', f'{name}: groups {got}, specification (first match) {exp} [{sig}]', case)
   # three-way merges: later states win path by path
   st3 = tlc.require_ok(tlc.run('Traverse', 'Traverse_state3.cfg', workers=1, timeout=1800), 'Traverse state3')
   chk.add_tlc(st3, 'Traverse state triples')
